@@ -21,6 +21,8 @@ try:
     assert sh("git -C /repo worktree add -q --detach %s HEAD" % wt).returncode == 0
     ap = sh("git -C %s apply %s/patch.diff" % (wt, d))
     if ap.returncode != 0:
+        ap = sh("git -C %s apply --3way %s/patch.diff" % (wt, d))
+    if ap.returncode != 0:
         print("patch no longer applies:", ap.stderr[-300:]); sys.exit(2)
     os.makedirs(vc)
     sh("rsync -a --exclude .git --exclude replays --exclude __pycache__ --exclude seeded /verif/ %s/" % vc)
